@@ -192,7 +192,7 @@ func (x *Exec) modTargets(env *Env, item string) ([]modTarget, error) {
 	}
 	if item == "chanlog" {
 		// the ghost logs of all channels
-		return []modTarget{{Comp: "GF$chan$sent", So: ArrSort(SInt, SInt)}, {Comp: "GF$chan$last%tag", So: ArrSort(SInt, SInt)}, {Comp: "GF$chan$last%val", So: ArrSort(SInt, SInt)}}, nil
+		return chanLogTargets(), nil
 	}
 	if strings.HasPrefix(item, "ghostall(") && strings.HasSuffix(item, ")") {
 		// ghostall(T.$f): the ghost field f of every object of type T
@@ -463,6 +463,17 @@ func VerifyFunction(prog *Program, cs *Contracts, fn *ssa.Function, fc *FuncCont
 		u.Trust("axiom: " + ax.Text)
 	}
 	x.siteTags = sourceOrderTags(fn)
+	// path counters used by called(Name#k) / spawned()
+	for _, tag := range x.siteTags {
+		if contractMentions(fc, "called("+tag+")") {
+			st.Ghost["calls."+tag] = IntLit(0)
+			x.counting = true
+		}
+	}
+	if contractMentions(fc, "spawned()") {
+		st.Ghost["go.count"] = IntLit(0)
+		x.counting = true
+	}
 	fr := x.newFrame(fn, nil)
 	fr.top = true
 	fr.fc = fc
@@ -588,10 +599,35 @@ func (x *Exec) frameObligations(fr *Frame, penv *Env, r ret, ri int) error {
 		return err
 	}
 	if all {
-		return nil
+		// "modifies heap": callers keep (a) ghost fields and (b) the components listed under "preserves" across the
+		// call, so both are checked here; everything else may change.
+		penvT := x.envFor(fr, fr.entry, fr.entry)
+		for _, it := range fc.Preserves {
+			ts, err := x.modTargets(penvT, it)
+			if err != nil {
+				return engineErr("%s: preserves %s: %v", x.topName, it, err)
+			}
+			for _, t := range ts {
+				if t.All || t.Ref != nil || t.GhostVar != "" {
+					continue
+				}
+				cur := u.comp(r.st, t.Comp, t.So)
+				ent := u.comp(fr.entry, t.Comp, t.So)
+				if cur.S == ent.S {
+					continue
+				}
+				if !t.So.IsArray() {
+					x.u.AddObligation(x.topName, "preserve."+t.Comp, r.pos, x.labels, fmt.Sprintf("%s is preserved", t.Comp), r.st.PC, Eq(cur, ent))
+					continue
+				}
+				sk := u.Fresh("pres.r", SInt)
+				goal := Implies(Le(App("root", SInt, sk), fr.entry.Alloc), Eq(Select(cur, sk), Select(ent, sk)))
+				x.u.AddObligation(x.topName, "preserve."+t.Comp, r.pos, x.labels, fmt.Sprintf("%s is preserved (as promised to callers)", t.Comp), r.st.PC, goal)
+			}
+		}
 	}
 	_ = fc
-	if r.st.Epoch != fr.entry.Epoch {
+	if !all && r.st.Epoch != fr.entry.Epoch {
 		// a full havoc happened (opaque call): nothing can be said about the frame
 		x.u.AddObligation(x.topName, "frame.heap", r.pos, x.labels, "whole heap was havocked by an opaque call; frame cannot be established", r.st.PC, False)
 		return nil
@@ -602,6 +638,9 @@ func (x *Exec) frameObligations(fr *Frame, penv *Env, r ret, ri int) error {
 	}
 	sort.Strings(names)
 	for _, name := range names {
+		if all && !strings.HasPrefix(name, "GF$") {
+			continue
+		}
 		cur := r.st.Heap[name]
 		so := cur.So
 		ent := u.comp(fr.entry, name, so)
@@ -737,4 +776,41 @@ func sourceOrderTags(fn *ssa.Function) map[ssa.Instruction]string {
 		out[s.ins] = fmt.Sprintf("%s#%d", s.what, cnt[s.what])
 	}
 	return out
+}
+
+// chanLogTargets: the components of the ghost log of all channels.
+func chanLogTargets() []modTarget {
+	return []modTarget{{Comp: "GF$chan$sent", So: ArrSort(SInt, SInt)}, {Comp: "GF$chan$last%tag", So: ArrSort(SInt, SInt)}, {Comp: "GF$chan$last%val", So: ArrSort(SInt, SInt)},
+		{Comp: "GF$chan$last1%Int", So: ArrSort(SInt, SInt)}, {Comp: "GF$chan$last1%Bool", So: ArrSort(SInt, SBool)}}
+}
+
+// contractMentions: does any clause of the contract contain the text?
+func contractMentions(fc *FuncContract, text string) bool {
+	has := func(cs []*Clause) bool {
+		for _, c := range cs {
+			if strings.Contains(c.Text, text) {
+				return true
+			}
+		}
+		return false
+	}
+	if has(fc.Requires) || has(fc.Ensures) {
+		return true
+	}
+	for _, l := range fc.Loops {
+		if has(l) {
+			return true
+		}
+	}
+	for _, l := range fc.CallAssert {
+		if has(l) {
+			return true
+		}
+	}
+	for _, l := range fc.CallInv {
+		if has(l) {
+			return true
+		}
+	}
+	return false
 }
